@@ -1,6 +1,7 @@
 package main
 
 import (
+	"sort"
 	"encoding/hex"
 	"fmt"
 	"go/types"
@@ -339,6 +340,25 @@ func registerStrings(e *Engine) {
 			return nil
 		}
 		arr := sl.arr.val.(*ArrayV)
+		// the sorted result depends only on the multiset of elements: bring the inputs into a
+		// canonical order (by term identity) first, so that two executions that collected the
+		// same strings in different orders build the very same terms
+		{
+			els := make([]*Str, sl.len)
+			keys := make([]string, sl.len)
+			for k := 0; k < sl.len; k++ {
+				els[k] = arr.E[sl.off+k].(*Str)
+				keys[k] = in.strKey(els[k])
+			}
+			idx := make([]int, sl.len)
+			for k := range idx {
+				idx[k] = k
+			}
+			sort.SliceStable(idx, func(x, y int) bool { return keys[idx[x]] < keys[idx[y]] })
+			for k := 0; k < sl.len; k++ {
+				arr.E[sl.off+k] = els[idx[k]]
+			}
+		}
 		// bubble network of compare-exchange steps: no forks; each step merges with ite
 		for i := 0; i < sl.len; i++ {
 			for j := 0; j+1 < sl.len-i; j++ {
@@ -918,4 +938,21 @@ func (in *Interp) reMatch(rm *reModel, s *Str) *Term {
 		carry = next
 	}
 	return matched
+}
+
+// strKey is a structural identity of a symbolic string (segment constants and term ids).
+func (in *Interp) strKey(x *Str) string {
+	var sb strings.Builder
+	for _, g := range x.segs {
+		if g.sym == nil {
+			fmt.Fprintf(&sb, "c%q|", g.c)
+			continue
+		}
+		fmt.Fprintf(&sb, "s%d:", g.sym.Len.id)
+		for _, t := range g.sym.B {
+			fmt.Fprintf(&sb, "%d,", t.id)
+		}
+		sb.WriteByte('|')
+	}
+	return sb.String()
 }
